@@ -1,6 +1,7 @@
 """C22 - validity-window backfill trusts only the hash-linked ancestry of the sync target.
 design : Backfill_MC - client expected-parent chaining + syncer goroutine against honest (real handler semantics) and faulty
-         responses, all timestamp assignments of a short chain; safety invariants + liveness under fairness   [TLC exhaustive]
+         responses and forward targets (UpdateSyncTarget), all timestamp assignments of a short chain; safety invariants +
+         liveness under fairness                                                                                [TLC exhaustive]
 binding: (tv) real Syncer + BlockFetcherClient + TimeValidityWindow + BlockFetcherHandler (honest peer) against a scripted
          network; every response, SaveHistorical call and the final IsRepeat answers validated against Backfill_Trace"""
 import json
@@ -43,6 +44,11 @@ def run(ctx):
             ctx.cov["design_step_detects_missing_genesis_stop"] = hit
             if not hit:
                 raise vlib.Infra("sensitivity: the client without the genesis stop no longer violates Completes")
+            r = vlib.run_tlc(ctx, "mc-ge", "Backfill_MC", "Backfill_MC_forward_ge.cfg")
+            hit = "Invariant CompleteWhenDone is violated" in r["out"]
+            ctx.cov["design_step_detects_forward_completion_one_timestamp_early"] = hit
+            if not hit:
+                raise vlib.Infra("sensitivity: forward completion with >= no longer violates CompleteWhenDone")
     scenarios = ctx.pick(48, 600)
     rc, out = vlib.go_driver(ctx, PKG, "^TestVerifBackfillRecord$", files=FILES, env={"VERIF_SCENARIOS": scenarios},
                              timeout=1200)
@@ -58,6 +64,23 @@ def run(ctx):
         resps = [l for l in lines if l["ev"] == "resp"]
         saves = [l for l in lines if l["ev"] == "save"]
         end = lines[-1]
+        ups = [l for l in lines if l["ev"] == "update"]
+        # labels for coverage only: the oldest block populate links (walk down through the held blocks)
+        ts, n0, win = r["ts"], r["n0"], r["win"]
+        o = n0 - r["have"]
+        for h in range(n0, n0 - r["have"] - 1, -1):
+            if ts[h] < ts[n0] - win:
+                o = h
+                break
+        ctx.add("forward_updates", len(ups))
+        for u in ups:
+            missing_equal = o > 0 and ts[o - 1] == ts[o] and not any(s["h"] == o - 1 for s in lines[:lines.index(u)] if s["ev"] == "save")
+            if ts[u["h"]] - ts[o] == win:
+                ctx.add("forward_updates_at_exactly_one_window", 1)
+                if missing_equal:
+                    ctx.add("forward_updates_at_exactly_one_window_with_equal_timestamp_ancestor_missing", 1)
+            if ts[u["h"]] - ts[o] > win:
+                ctx.add("forward_updates_beyond_one_window", 1)
         faulty = [l["beh"] for l in resps if l["beh"] != "honest"]
         for b in set(faulty):
             ctx.cov.setdefault("faulty_responses", {})
@@ -69,12 +92,14 @@ def run(ctx):
         ctx.add("scenarios_ending_past_the_window", 1 if saves and saves[-1]["h"] > 0 and end.get("done") else 0)
         ctx.add("fabricated_blocks_offered", sum(1 for l in resps for b in l["blocks"] if b["id"] >= 99))
         if faulty and saves:
-            distinct.add((r["n"], r["win"], tuple(r["ts"]), r["have"], tuple(r["script"])))
+            distinct.add((r["n"], r["n0"], r["win"], tuple(r["ts"]), r["have"], tuple(r["script"])))
     ctx.add("evaluations", len(files))
     ctx.add("distinct_nontrivial", len(distinct))
     ctx.sample({"kind": "recorded-trace", "first_lines": vlib.read_ndjson(files[0])[:7]})
     if ctx.only is None:
-        for k in ("blocks_saved", "scenarios_reaching_genesis", "scenarios_ending_past_the_window", "fabricated_blocks_offered"):
+        for k in ("blocks_saved", "scenarios_reaching_genesis", "scenarios_ending_past_the_window", "fabricated_blocks_offered",
+                  "forward_updates_at_exactly_one_window_with_equal_timestamp_ancestor_missing",
+                  "forward_updates_beyond_one_window"):
             if not ctx.cov.get(k):
                 raise vlib.Infra("vacuity: no scenario with " + k)
         if len(ctx.cov.get("faulty_responses", {})) < 8:
@@ -90,12 +115,15 @@ def run(ctx):
             pass
     vlib.report_failures(ctx, fails, describe)
     ctx.cov["rule"] = ("tv: seeded scenarios: chain of 3-8 blocks with non-decreasing (possibly equal) timestamps, window in "
-                       "{1,2,3,5,8,1000}, node starts with the target and 0-2 ancestors, script of 0-4 faulty responses "
+                       "{1,2,3,5,8,1000}, node starts with the target and 0-2 ancestors (often sharing a timestamp with the next older blocks), "
+                       "0-2 forward blocks handed to UpdateSyncTarget at exactly / just beyond / just below one window after the "
+                       "oldest held block, script of 0-4 faulty responses "
                        "(partial, truncated, forged, reordered, swapped, dup, otherheight, fork, empty, error, nopeer; slow in "
                        "thorough) followed by honest answers of the real handler; non-trivial = at least one faulty response "
                        "and at least one recorded block; distinct = distinct (chain, window, start, script)")
     ctx.assumptions += ["block ids are collision-free hashes of the block bytes (the driver's parser computes them from the bytes)",
                         "transaction expiries lie beyond the target's timestamp (eviction is C09's subject)",
-                        "no UpdateSyncTarget during the backfill (forward syncing is not exercised)",
+                        "UpdateSyncTarget is issued by the driver while the client waits for a response (never concurrently with the "
+                        "client's block loop), with the next true block only",
                         "'not done' is decided by a 30 s watchdog (normal completion takes a few 500 ms rounds) and is only a "
                         "violation when nothing is left to fetch or 4 consecutive honest answers were just served"]
